@@ -59,7 +59,10 @@ func refOpen(buf []byte) (from refID, body []byte, err error) {
 		return from, nil, errors.New("ref: bad hash")
 	}
 	sig := buf[refMacSize:refHeadSize]
-	if sig[64] > 3 {
+	// The last byte is the recovery id of the compact signature format: 0..3, plus 4 when
+	// the signer flags a compressed key. The flag does not change the recovered key, so a
+	// datagram with V^4 carries the same signed content from the same key.
+	if sig[64] > 7 {
 		return from, nil, errors.New("ref: bad recovery id")
 	}
 	compact := make([]byte, 65)
